@@ -117,7 +117,13 @@ func setRequestHeaderValue(r *http.Request, name string, val value.Value) {
 	if strings.EqualFold(name, "cookie") {
 		// The value may not be representable as a cookie (e.g. it contains quotes or
 		// commas), then no cookie could be created and there is nothing to add
-		if c := http.CreateCookie(key, val.String()); c != nil {
+		sVal := val.String()
+		if isNotSetValue(val) {
+			sVal = ""
+		}
+		if c := http.CreateCookie(key, sVal); c != nil {
+			// Replace the cookie of the same name instead of shadowing the new value behind it
+			removeCookieByName(r, key)
 			r.AddCookie(c)
 		}
 		return
